@@ -24,7 +24,7 @@ pub enum AnyTarget<T: Float> {
     GaussND(GaussND),
     StudentT { nu: f64 },
     Quartic,
-    /// log x summed over coordinates: NaN left of 0, -inf at 0 (C14)
+    /// Gamma(2,1) per coordinate: ln x - x : NaN left of 0, -inf at 0 (C14)
     LogX,
     /// sqrt-domain: -x^2/2 + ln(sqrt(x)) : NaN for x < 0 (C14)
     SqrtDom,
@@ -45,7 +45,7 @@ where
             AnyTarget::GaussND(g) => <GaussND as BatchedGradientTarget<T, B>>::unnorm_logp_batch(g, p),
             AnyTarget::StudentT { nu } => p.powi_scalar(2).div_scalar(*nu).add_scalar(1.0).log().sum_dim(1).squeeze::<1>(1).mul_scalar(-(*nu + 1.0) / 2.0),
             AnyTarget::Quartic => p.powi_scalar(4).sum_dim(1).squeeze::<1>(1).mul_scalar(-0.25),
-            AnyTarget::LogX => p.log().sum_dim(1).squeeze::<1>(1),
+            AnyTarget::LogX => (p.clone().log() - p).sum_dim(1).squeeze::<1>(1),
             AnyTarget::SqrtDom => (p.clone().powi_scalar(2).mul_scalar(-0.5) + p.sqrt().log()).sum_dim(1).squeeze::<1>(1),
             AnyTarget::Box1 => {
                 // -x^2/2 + ln(max(0, 1 - floor(|x|)))  : 0 inside, -inf outside (|x| >= 1 ... < 2), NaN further out is avoided by clamp
@@ -127,7 +127,7 @@ pub fn ref_of<T: Float>(t: &AnyTarget<T>) -> RefT {
             }
         }
         AnyTarget::Quartic => RefT { kind: "Quartic".into(), f: std::sync::Arc::new(|x| x.iter().map(|v| -0.25 * v.powi(4)).sum()), g: std::sync::Arc::new(|x| x.iter().map(|v| -v.powi(3)).collect()) },
-        AnyTarget::LogX => RefT { kind: "LogX".into(), f: std::sync::Arc::new(|x| x.iter().map(|v| v.ln()).sum()), g: std::sync::Arc::new(|x| x.iter().map(|v| 1.0 / v).collect()) },
+        AnyTarget::LogX => RefT { kind: "LogX".into(), f: std::sync::Arc::new(|x| x.iter().map(|v| v.ln() - v).sum()), g: std::sync::Arc::new(|x| x.iter().map(|v| 1.0 / v - 1.0).collect()) },
         AnyTarget::SqrtDom => RefT { kind: "SqrtDom".into(), f: std::sync::Arc::new(|x| x.iter().map(|v| -0.5 * v * v + v.sqrt().ln()).sum()), g: std::sync::Arc::new(|x| x.iter().map(|v| -v + 0.5 / v).collect()) },
         AnyTarget::Box1 => RefT {
             kind: "Box1".into(),
